@@ -341,12 +341,18 @@ def masked_assign(cx, arr, mask, value):
     for a, b in zip(mask.shape, arr.shape):
         if not T.same(a, b):
             cx.require(f"safe.broadcast#{cx.ordinal('safe.broadcast')}", T.eq(a, b), "safe", "mask extent")
-    t = term_of(value)
     mg = mask.getter()
     view = arr
     buf = arr.buf
     if not arr.is_identity():
         raise Unsupported("boolean-mask store through a view")
+    if isinstance(value, str) and value == "NAN_MARKER":
+        # arr[mask] = np.nan: the selected cells become NaN, the others keep value and NaN-ness
+        prev_nan = buf.nan if buf.nan is not None else (lambda bidx: False)
+        buf.nan = lambda bidx: T.ite(mg(bidx), True, prev_nan(bidx))
+        buf.writes += 1
+        return
+    t = term_of(value)
     old, old_nan = buf.elem, buf.nan
 
     def new_elem(bidx):
